@@ -51,12 +51,25 @@ int vnadata_set_fz0_vector(vnadata_t *vdp, int findex,
 	return -1;
     }
     ports = MAX(vdp->vd_rows, vdp->vd_columns);
-    if (!(vdip->vdi_flags & VF_PER_F_Z0)) {
-	if (_vnadata_convert_to_fz0(vdip) == -1) {
-	    return -1;
+    {
+	/*
+	 * The caller may pass a vector of the object itself (from
+	 * vnadata_get_z0_vector or vnadata_get_fz0_vector), which the
+	 * mode switch frees: copy the values first.
+	 */
+	double complex copy[ports + 1];
+
+	for (int port = 0; port < ports; ++port) {
+	    copy[port] = z0_vector[port];
+	}
+	if (!(vdip->vdi_flags & VF_PER_F_Z0)) {
+	    if (_vnadata_convert_to_fz0(vdip) == -1) {
+		return -1;
+	    }
+	}
+	for (int port = 0; port < ports; ++port) {
+	    vdip->vdi_z0_vector_vector[findex][port] = copy[port];
 	}
     }
-    (void)memcpy((void *)vdip->vdi_z0_vector_vector[findex],
-	    (void *)z0_vector, ports * sizeof(double complex));
     return 0;
 }
